@@ -47,11 +47,22 @@ class ModelChooser(object):
             self.target = None
         # callers never wait for the wrapped storage
         fl = sched.parts.get('fl')
-        if fl is not None and fl.label == 'storage':
+        if fl is not None and fl.label == 'storage' and any(l.owner == 'fl' for l in sched.locks):
             for n, p in sched.parts.items():
                 if n.startswith('p') and p.state == 'blocked' and p.label == 'lock.wait' and not p.pred():
-                    self.violations.append('producer %s waits for the lock while the flusher is inside the wrapped storage' % n)
+                    self.violations.append('producer %s waits for the lock, which the flusher holds while it is inside the '
+                                           'wrapped storage' % n)
         names = dict((n, h) for n, h in enabled if h == 'run')
+        # a participant just preempted at a line anchor lets somebody else run first
+        for n in list(names):
+            p = sched.parts[n]
+            mark = p.label + str(len(sched.preemptions))
+            if p.label.startswith('anchor:') and getattr(p, 'anchor_served', None) != mark:
+                p.anchor_served = mark
+                others = sorted(k for k in names if k != n)
+                if others:
+                    self.target = None
+                    return (others[len(sched.preemptions) % len(others)], 'run')
         # only the flush-interval timer may fire: the join time-out of close() is assumed not to expire
         touts = dict((n, h) for n, h in enabled if h == 'timeout' and n == 'fl')
         if self.target is None and self.i < len(self.moves):
@@ -71,7 +82,7 @@ class ModelChooser(object):
         raise Deadlock('only assumed-away time-outs could fire: %s' % (enabled,))
 
 
-def execute(script, failing, moves, mutate_check=True):
+def execute(script, failing, moves, anchor_seed=None):
     """Run the real AsyncRecordOnlyTapeCassette under the deterministic scheduler along a TLC behaviour."""
     import playback.tape_cassettes.asynchronous.async_record_only_tape_cassette as am
     from playback.tape_cassettes.in_memory.in_memory_tape_cassette import InMemoryTapeCassette
@@ -79,6 +90,9 @@ def execute(script, failing, moves, mutate_check=True):
     from playback.tape_cassette import TapeCassette
     chooser = ModelChooser(moves)
     sched = Scheduler(chooser, urgency=False, max_steps=5000)
+    if anchor_seed is not None:
+        sched.set_anchors(am.__file__.replace('.pyc', '.py'), r'_recording_operation_buffer|_started|current_flushed_operations',
+                          random.Random(anchor_seed), budget=2, prob=0.2)
     Lock, Event, Thread = make_threading(sched)
     failing = set(failing)
     tokens = {}
@@ -229,14 +243,22 @@ _G = {}
 
 
 def _work(task):
-    name, script, failing, items = task
+    name, script, failing, items, every = task
     g = _G[name]
     out = []
-    for it in items:
+    import zlib
+    for k, it in enumerate(items):
         moves = [g.states[n]['who'] for n in it[1:]]
         res = execute(script, failing, moves)
         res['moves'] = moves
+        res['anchor_seed'] = None
         out.append(res)
+        if k % every == 0:   # plus randomised preemptions at line anchors (accesses to the shared buffer)
+            aseed = zlib.crc32(repr((name, moves)).encode()) & 0xffffff
+            r2 = execute(script, failing, moves, anchor_seed=aseed)
+            r2['moves'] = moves
+            r2['anchor_seed'] = aseed
+            out.append(r2)
     return name, out
 
 
@@ -303,7 +325,7 @@ def run(rep, tier, seed):
             for n in set(x for p in paths for x in p):
                 g.states[n]
             _G[name] = g
-            tasks = [(name, script, failing, paths[i:i + 60]) for i in range(0, len(paths), 60)]
+            tasks = [(name, script, failing, paths[i:i + 60], 3 if quick else 1) for i in range(0, len(paths), 60)]
             ctx = mp.get_context('fork')
             with ctx.Pool(min(tlc.NCPU, max(1, len(tasks)))) as pool:
                 for nm, out in pool.imap_unordered(_work, tasks):
@@ -321,7 +343,7 @@ def run(rep, tier, seed):
                         if res['violations']:
                             rep.violation({'summary': '%s (workload %s, failing %s)' % (res['violations'][0][:300], w, failing),
                                            'signature': None, 'all': res['violations'][:4]},
-                                          replay={'kind': 'schedule', 'workload': w, 'failing': failing, 'moves': mv})
+                                          replay={'kind': 'schedule', 'workload': w, 'failing': failing, 'moves': mv, 'anchor_seed': res.get('anchor_seed')})
             _G[name] = None
         # direction B: every boundary-event log is validated by TLC against the observable-level trace spec
         if all_traces:
@@ -390,7 +412,7 @@ def replay(rep, body):
     if rp.get('kind') == 'suite-trace':
         from .. import suitetrace
         return suitetrace.replay_trace(body)
-    res = execute(WORKLOADS[rp['workload']], rp['failing'], rp['moves'])
+    res = execute(WORKLOADS[rp['workload']], rp['failing'], rp['moves'], rp.get('anchor_seed'))
     for v in res['violations']:
         print('VIOLATING', v[:500])
     print('events:', res.get('events'))
